@@ -191,7 +191,7 @@ func genC18(rt *rapid.T, minTx int) (*c18case, *sim.World) {
 	g := &sim.G{T: rt, W: w}
 	c := &c18case{Gen: gs}
 	nb := rapid.IntRange(6, 16).Draw(rt, "nblocks")
-	mix := Mix{Send: 3, Dep: 3, Recv: 4, Replay: 1, Replace: 2, RepDep: 2, Admin: 8, Multi: 1, DepValid: 90, RecvBroken: 15, ReplaceValid: 85, AdminHolder: 92, FaultPct: 3}
+	mix := Mix{Send: 3, Dep: 3, Recv: 4, Replay: 1, Replace: 2, RepDep: 2, Admin: 8, Multi: 1, DepValid: 90, RecvBroken: 15, ReplaceValid: 85, AdminHolder: 92, FaultPct: 3, AttProbe: 3}
 	for b := 0; b < nb; b++ {
 		var blk c18block
 		var ops []*sim.Op
